@@ -315,6 +315,21 @@ class Effects:
                     m[k.arg] = refs(k.value)
             return m
 
+        def actual_expr(callee: FuncInfo, call: ast.Call, recv, formal):
+            """the AST of the actual argument bound to a formal parameter of the callee at this call (None if not found / starred)"""
+            ca = callee.node.args
+            formals = [x.arg for x in ca.posonlyargs + ca.args]
+            if formals and not callee.is_staticmethod and (recv is not None):
+                formals = formals[1:]
+            for k in call.keywords:
+                if k.arg == formal:
+                    return k.value
+            if formal in formals:
+                i = formals.index(formal)
+                if i < len(call.args) and not any(isinstance(a_, ast.Starred) for a_ in call.args[:i + 1]):
+                    return call.args[i]
+            return None
+
         def call_returns(call: ast.Call):
             f = call.func
             name = f.attr if isinstance(f, ast.Attribute) else (f.id if isinstance(f, ast.Name) else None)
@@ -407,8 +422,31 @@ class Effects:
                     if f.attr == "setattr":
                         pass
                 if isinstance(f, ast.Name) and f.id == "setattr" and st.args:
+                    # setattr(obj, <name>, value): the attribute is known when <name> is a literal, a conditional of literals, or a
+                    # parameter of this function (then resolved at each call site: "$param:<formal>")
+                    nm = st.args[1] if len(st.args) > 1 else None
+                    if isinstance(nm, ast.Name) and nm.id not in params:
+                        # a local bound exactly once to a literal / conditional of literals
+                        defs = [x.value for x in ast.walk(fi.node) if isinstance(x, ast.Assign) and len(x.targets) == 1
+                                and isinstance(x.targets[0], ast.Name) and x.targets[0].id == nm.id]
+                        others = [x for x in ast.walk(fi.node) if isinstance(x, (ast.AugAssign, ast.For, ast.NamedExpr, ast.comprehension))
+                                  and any(isinstance(y, ast.Name) and y.id == nm.id and isinstance(getattr(y, "ctx", None), ast.Store) for y in ast.walk(x))]
+                        if len(defs) == 1 and not others:
+                            nm = defs[0]
+                    if isinstance(nm, ast.Constant) and isinstance(nm.value, str):
+                        fields = [nm.value]
+                    elif isinstance(nm, ast.IfExp) and all(isinstance(x, ast.Constant) and isinstance(x.value, str) for x in (nm.body, nm.orelse)):
+                        fields = [nm.body.value, nm.orelse.value]
+                    elif isinstance(nm, ast.Name) and nm.id in params and not any(
+                            isinstance(x, (ast.Assign, ast.AugAssign)) and any(isinstance(t_, ast.Name) and t_.id == nm.id
+                                                                               for t_ in (x.targets if isinstance(x, ast.Assign) else [x.target]))
+                            for x in ast.walk(fi.node)):
+                        fields = [f"$param:{nm.id}"]
+                    else:
+                        fields = ["*"]
                     for r, p in refs(st.args[0]):
-                        record(r, _trim(p + ("*",)), st, "setattr()")
+                        for fld in fields:
+                            record(r, _trim(p + (fld,)), st, "setattr()")
                 for callee, recv in callees(st):
                     cs_ = self.sum.get(self.key(callee))
                     if cs_ is None:
@@ -418,8 +456,29 @@ class Effects:
                     for root, path in list(cs_.writes):
                         if recv == "ctor" and root == (callee.params() or ["self"])[0]:
                             continue    # writes to the freshly constructed object
-                        for r, p in actual.get(root, ()):
-                            record(r, _trim(p + path), st, f"via {callee.short}()")
+                        paths = [path]
+                        if any(isinstance(x, str) and x.startswith("$param:") for x in path):
+                            # attribute named by one of the callee's parameters: resolve it from this call's actual argument
+                            paths = []
+                            cands = [[]]
+                            for x in path:
+                                if isinstance(x, str) and x.startswith("$param:"):
+                                    e_ = actual_expr(callee, st, recv, x[7:])
+                                    if isinstance(e_, ast.Constant) and isinstance(e_.value, str):
+                                        opts = [e_.value]
+                                    elif isinstance(e_, ast.IfExp) and all(isinstance(y, ast.Constant) and isinstance(y.value, str) for y in (e_.body, e_.orelse)):
+                                        opts = [e_.body.value, e_.orelse.value]
+                                    elif isinstance(e_, ast.Name) and e_.id in params:
+                                        opts = [f"$param:{e_.id}"]
+                                    else:
+                                        opts = ["*"]
+                                else:
+                                    opts = [x]
+                                cands = [c + [o] for c in cands for o in opts]
+                            paths = [tuple(c) for c in cands]
+                        for path_ in paths:
+                            for r, p in actual.get(root, ()):
+                                record(r, _trim(p + path_), st, f"via {callee.short}()")
                     for g, path in list(cs_.gwrites):
                         record("global:" + g, path, st, f"via {callee.short}()")
             # property setters invoked by attribute stores
